@@ -42,10 +42,13 @@ def _cases(draw, tier):
     salt = draw(strategies.salts)
     if large:
         # ids with two digits, many projects per lecturer: no enumeration needed for this oracle
-        if pct(draw) < 50:
+        k = pct(draw)
+        if k < 40:
             inst = draw(strategies.instances(LARGE[tier]))
-        else:
+        elif k < 80:
             inst = draw(_lp.embedded_instances())
+        else:
+            inst = draw(strategies.crowd_instances(two_sided=draw(st.booleans())))
         opts = draw(strategies.option_sets(inst, min_crit=1, max_crit=3, stab=False))
         return {'inst': inst, 'opts': opts, 'choices': [], 'mode': 'cbc', 'salt': salt}
     inst = draw(strategies.instances(strategies.SIZES[tier]))
